@@ -166,54 +166,71 @@ theorem msg_ok (b : Bot) (m : Msg) (h : BotInv b) (hop : b.openingRow ≠ []) : 
     rw [h1] at hk
     rw [h2, startHand_of_kind _ _ h3]
     exact h k hk
+  have hq0 : BotInv ({ b with tower := b.tower.apply m } : Bot) := keep _ rfl rfl rfl
+  have hop0 : ({ b with tower := b.tower.apply m } : Bot).openingRow ≠ [] := hop
+  generalize ({ b with tower := b.tower.apply m } : Bot) = q at hq0 hop0
+  have keepq : ∀ b' : Bot, b'.ctl.roundsLeft = q.ctl.roundsLeft → b'.ctl.rowNumber = q.ctl.rowNumber →
+      b'.gen.kind = q.gen.kind → BotInv b' := by
+    intro b' h1 h2 h3 k hk
+    rw [h1] at hk
+    rw [h2, startHand_of_kind _ _ h3]
+    exact hq0 k hk
+  have hsize : BotInv (q.onSizeChange).1 := by
+    simp only [Bot.onSizeChange]; split <;> exact keepq _ rfl rfl rfl
+  unfold Bot.onMsg
+  simp only []
   cases m with
-  | bellRung state who => simp only [Bot.onMsg]; split <;> (try split) <;> exact keep _ rfl rfl rfl
-  | globalState state => simp only [Bot.onMsg, Bot.onSizeChange]; split <;> exact keep _ rfl rfl rfl
-  | userEntered id name => exact keep _ rfl rfl rfl
-  | userList users => exact keep _ rfl rfl rfl
+  | bellRung state who => simp only []; split <;> (try split) <;> first | exact hq0 | exact keep _ rfl rfl rfl
+  | globalState state => first | exact hsize | (simp only [Bot.onSizeChange]; split <;> exact keep _ rfl rfl rfl)
+  | userEntered id name => first | exact hq0 | exact keep _ rfl rfl rfl
+  | userList users => first | exact hq0 | exact keep _ rfl rfl rfl
   | sizeChange n =>
-    simp only [Bot.onMsg]
+    simp only []
     split
-    · simp only [Bot.onSizeChange]; split <;> exact keep _ rfl rfl rfl
-    · exact h
-  | assign bell user => simp only [Bot.onMsg]; split <;> exact keep _ rfl rfl rfl
+    · first | exact hsize | (simp only [Bot.onSizeChange]; split <;> exact keep _ rfl rfl rfl)
+    · first | exact hq0 | exact keep _ rfl rfl rfl
+  | assign bell user => first | exact hq0 | exact keep _ rfl rfl rfl
   | call c =>
-    simp only [Bot.onMsg, Bot.onCall]
+    simp only [Bot.onCall]
     split
     · unfold Bot.onLookTo
       split
-      · rcases look_to_ok b with h1 | h1
-        · exact h1
-        · exact absurd h1.1 hop
-      · exact h
+      · first
+        | (rcases look_to_ok q with h1 | h1
+           · exact h1
+           · exact absurd h1.1 hop0)
+        | (rcases look_to_ok b with h1 | h1
+           · exact h1
+           · exact absurd h1.1 hop)
+      · first | exact hq0 | exact h
     · split
-      · exact go_ok b h
+      · first | exact go_ok q hq0 | exact go_ok b h
       · repeat' split
-        all_goals exact keep _ rfl rfl rfl
-  | userLeft id => exact keep _ rfl rfl rfl
+        all_goals first | exact keepq _ rfl rfl rfl | exact keep _ rfl rfl rfl
+  | userLeft id => first | exact hq0 | exact keep _ rfl rfl rfl
   | setting kvs =>
-    simp only [Bot.onMsg]
+    simp only []
+    have : ∀ (l : List (String × SVal)) (b' : Bot), BotInv b' → BotInv (foldSettings b' l).1 := by
+      intro l
+      induction l with
+      | nil => intro b' hb'; exact hb'
+      | cons kv rest ih =>
+        intro b' hb'
+        obtain ⟨k, v⟩ := kv
+        simp only [foldSettings]
+        apply ih
+        simp only [Bot.onSetting]
+        repeat' split
+        all_goals exact hb'
     split
-    · have : ∀ (l : List (String × SVal)) (b' : Bot), BotInv b' → BotInv (foldSettings b' l).1 := by
-        intro l
-        induction l with
-        | nil => intro b' hb'; exact hb'
-        | cons kv rest ih =>
-          intro b' hb'
-          obtain ⟨k, v⟩ := kv
-          simp only [foldSettings]
-          apply ih
-          simp only [Bot.onSetting]
-          repeat' split
-          all_goals exact hb'
-      exact this kvs b h
-    · exact h
+    · first | exact this kvs q hq0 | exact this kvs _ h
+    · first | exact hq0 | exact h
   | rowGen g =>
-    simp only [Bot.onMsg]
+    simp only []
     split
-    · split <;> exact keep _ rfl rfl rfl
-    · exact h
-  | stopTouch => simp only [Bot.onMsg]; split <;> exact keep _ rfl rfl rfl
+    · split <;> first | exact keepq _ rfl rfl rfl | exact keep _ rfl rfl rfl
+    · first | exact hq0 | exact h
+  | stopTouch => simp only []; split <;> first | exact keepq _ rfl rfl rfl | exact keep _ rfl rfl rfl
 
 /-- The initial Bot satisfies the invariant. -/
 theorem init_ok (g : Gen) (u s c : Bool) (n : Option String) (id : Option Nat) : BotInv (Bot.init g u s c n id) := by
